@@ -11,7 +11,7 @@ import (
 func init() {
 	Register(&Property{
 		ID:    "C45",
-		Floor: 40,
+		Floor: 45,
 		Clauses: "webdav.Dir, lexical confinement as structure: in Mkdir/OpenFile/RemoveAll/Rename/Stat every string argument of every os.* call is exactly a result of d.resolve on the method's own receiver, derives from the request name only through resolve, and is tested != \"\" on every path to the call; " +
 			"resolve rejects names containing NUL (and, where filepath.Separator != '/', names containing the separator) before filepath.Join, the name reaches Join only through slashClean and filepath.FromSlash, the root operand of Join is the receiver (or \".\" when empty), and resolve returns either \"\" or that Join; " +
 			"slashClean returns path.Clean of a value that is the name itself only on the edge where name != \"\" and name[0] == '/', otherwise \"/\"+name; " +
@@ -26,7 +26,7 @@ func init() {
 func c45(c *Ctx) {
 	const D = "(webdav.Dir)."
 	resolve := D + "resolve"
-	osCalls := CallsInPkg("os")
+	osCalls := WdCallsInPkg("os")
 	isResolve := IsCallTo(resolve)
 
 	type meth struct {
@@ -46,7 +46,7 @@ func c45(c *Ctx) {
 		c.Count(fnName, Calls(resolve), len(m.names), len(m.names))
 		rawName := func(v ssa.Value) bool {
 			for _, i := range m.names {
-				if IsParam(fn, i)(v) {
+				if WdIsParam(fn, i)(v) {
 					return true
 				}
 			}
@@ -57,11 +57,11 @@ func c45(c *Ctx) {
 		n, bad := 0, false
 		for _, in := range osCalls.F(c.P, fn) {
 			for _, a := range in.(ssa.CallInstruction).Common().Args {
-				if !IsStringType(a) {
+				if !WdIsStringType(a) {
 					continue
 				}
 				n++
-				via, leaks := DerivesOnlyThrough(a, rawName, isResolve)
+				via, leaks := WdDerivesOnlyThrough(a, rawName, isResolve)
 				if !isResolve(a) || !via || leaks {
 					bad = true
 					c.Fail(rule, construct, InstrPos(in), fmt.Sprintf("argument `%s` of `%s`", Term(a), DescribeInstr(in)))
@@ -73,10 +73,10 @@ func c45(c *Ctx) {
 		} else if !bad {
 			c.OK(rule, construct, fmt.Sprintf("%d path argument(s)", n))
 		}
-		c.GuardSelf(fnName, osCalls, `each path argument != ""`, func(in ssa.Instruction) []string {
+		c.WdGuardSelf(fnName, osCalls, `each path argument != ""`, func(in ssa.Instruction) []string {
 			var specs []string
 			for _, a := range in.(ssa.CallInstruction).Common().Args {
-				if IsStringType(a) {
+				if WdIsStringType(a) {
 					specs = append(specs, Term(a)+` != ""`)
 				}
 			}
@@ -99,7 +99,7 @@ func c45(c *Ctx) {
 	// resolve
 	join := Calls("path/filepath.Join")
 	c.Reject(resolve, join, `Contains($0,"\x00")`)
-	sep, ok := c.P.ImportedConst("webdav", "path/filepath", "Separator")
+	sep, ok := c.P.WdImportedConst("webdav", "path/filepath", "Separator")
 	if !ok {
 		c.Undecided("anchor", "path/filepath.Separator", "constant not found")
 	}
@@ -116,9 +116,9 @@ func c45(c *Ctx) {
 		rule := "derives-from"
 		for _, in := range join.F(c.P, fn) {
 			arg := in.(*ssa.Call).Call.Args[0]
-			via, leaks := DerivesOnlyThrough(arg, IsParam(fn, 0), IsCallTo("webdav.slashClean"))
+			via, leaks := WdDerivesOnlyThrough(arg, WdIsParam(fn, 0), IsCallTo("webdav.slashClean"))
 			c.Check(via && !leaks, rule, resolve+": the name reaches filepath.Join only through slashClean", InstrPos(in), "", "the raw name reaches Join (or slashClean is not applied)")
-			c.Check(DependsOn(arg, IsReceiver(fn)), rule, resolve+": filepath.Join is rooted at the receiver", InstrPos(in), "", "Join does not use the Dir")
+			c.Check(DependsOn(arg, WdIsReceiver(fn)), rule, resolve+": filepath.Join is rooted at the receiver", InstrPos(in), "", "Join does not use the Dir")
 			// first element: receiver or ".", second: FromSlash(slashClean(name)); nothing else
 			elems := map[string]bool{}
 			for _, b := range fn.Blocks {
@@ -134,14 +134,14 @@ func c45(c *Ctx) {
 			c.Check(want, "call-args", resolve+`: Join(dir or ".", FromSlash(slashClean(name))) and nothing else`, InstrPos(in), "", fmt.Sprintf("Join elements are %v", elems))
 		}
 	}
-	c.RetAll(resolve, 0, `"" or the Join result`, func(v ssa.Value) bool {
+	c.WdRetAll(resolve, 0, `"" or the Join result`, func(v ssa.Value) bool {
 		return Term(v) == `""` || IsCallTo("path/filepath.Join")(v)
 	})
 	c.Callers(resolve, D+"Mkdir", D+"OpenFile", D+"RemoveAll", D+"Rename", D+"Stat")
 
 	// slashClean
 	sc := "webdav.slashClean"
-	c.RetAll(sc, 0, "path.Clean(...)", IsCallTo("path.Clean"))
+	c.WdRetAll(sc, 0, "path.Clean(...)", IsCallTo("path.Clean"))
 	if fn := c.MustFn(sc); fn != nil {
 		rule := "guard-before"
 		construct := sc + `: path.Clean receives the name unchanged only when name != "" && name[0] == '/', otherwise "/"+name`
@@ -156,8 +156,8 @@ func c45(c *Ctx) {
 			good, why := true, ""
 			checkLeaf := func(v ssa.Value, fs []Fact) {
 				switch {
-				case IsParam(fn, 0)(v):
-					if !c.P.HoldsExact(fs, `$0 != ""`) || !c.P.HoldsExact(fs, "$0[0] == 47") {
+				case WdIsParam(fn, 0)(v):
+					if !c.P.WdHoldsExact(fs, `$0 != ""`) || !c.P.WdHoldsExact(fs, "$0[0] == 47") {
 						good, why = false, "the raw name is passed without the leading-slash test"
 					}
 				case Term(v) == `("/"+$0)`:
@@ -167,7 +167,7 @@ func c45(c *Ctx) {
 			}
 			if ph, ok := arg.(*ssa.Phi); ok {
 				for i, e := range ph.Edges {
-					checkLeaf(e, EdgeFacts_webdav(ph.Block().Preds[i], ph.Block()))
+					checkLeaf(e, WdEdgeFacts(ph.Block().Preds[i], ph.Block()))
 				}
 			} else {
 				checkLeaf(arg, FactsAtInstr(calls[0]))
